@@ -324,6 +324,17 @@ def run(ck):
 
     for k in range(nfiles):
         c = gen_content(rnd, big=(k % 10 == 9))
+        only = {1: "backbone", 2: "groups", 3: "ifaces", 4: "devices"}.get(k)
+        if only:                      # keyrings with one kind of content only: no section may depend on another being there
+            for sec in ("backbone", "groups", "ifaces", "devices"):
+                if sec != only:
+                    c[sec] = None if sec == "backbone" else []
+            if only == "backbone":
+                c["backbone"] = {"mc": "224.0.23.12", "latency": 2000, "key": rkey(rnd)}
+            if only == "groups" and not c["groups"]:
+                c["groups"] = [[0x0801, rkey(rnd)]]
+            for i in c["ifaces"]:
+                i["groups"] = [] if only == "ifaces" else i["groups"]
         tree = build_tree(c, rnd)
         xml = to_xml(tree, signature(tree, c["password"]), rnd)
         p = tmp / "k.knxkeys"
